@@ -40,7 +40,7 @@ def jobs(pid, mode, tier, defines=(), want=('free', 'ws', 'str', 'nest', 'wide')
         for k in ks:
             for obj in (0, 1):
                 for nest in ((0,) if q else (0, 1)):
-                    add('wide.k%d.o%d.n%d' % (k, obj, nest), [4, k, obj, nest], '%s of %d single-digit children (digits symbolic)%s' % ('object' if obj else 'array', k, ', nested' if nest else ''))
+                    add('wide.k%d.o%d.n%d' % (k, obj, nest), [4, k, obj, nest], '%s of %d single non-zero-digit children (first, 16th, 17th, last symbolic)%s' % ('object' if obj else 'array', k, ', nested' if nest else ''))
     return J
 
 
